@@ -28,7 +28,7 @@ fn dispatch(routine: &str, t: &mut Toks) -> String {
         "mean" | "harmonic_mean" | "geometric_mean" | "kurtosis" | "skewness" | "central_moment"
         | "central_moments" | "entropy" | "weighted_mean" | "weighted_sum" | "weighted_var"
         | "weighted_std" | "kl_divergence" | "cross_entropy" | "weighted_mean_axis"
-        | "weighted_sum_axis" | "weighted_var_axis" | "weighted_std_axis" | "cov"
+        | "weighted_sum_axis" | "weighted_var_axis" | "weighted_std_axis" | "cov" | "nd_std_axis"
         | "pearson_correlation" | "count_eq" | "count_neq" | "sq_l2_dist" | "l1_dist" | "linf_dist"
         | "l2_dist" | "mean_abs_err" | "mean_sq_err" | "root_mean_sq_err"
         | "peak_signal_to_noise_ratio" | "libm" => r_num::run(routine, t),
